@@ -448,6 +448,12 @@ def make_builtins(interp):
             return len(v.items)
         if isinstance(v, DictV):
             return len(v.items)
+        if isinstance(v, SymStr) or (isinstance(v, Sym) and v.kind == "str"):
+            # length of a partly symbolic string: literal parts counted, symbolic parts as length symbols
+            total = 0
+            for part in (v.parts if isinstance(v, SymStr) else (v,)):
+                total = num_add(total, len(part) if isinstance(part, str) else Sym(f"len({show(part)})", "num", tag=("len", vkey(part))))
+            return total
         if isinstance(v, ListOf):
             return i.generic_len(v, n)  # the length every loop over this list uses on this path
         if isinstance(v, Ext):
